@@ -1,8 +1,8 @@
 (* C04 — flat-integer interface of the model for the correspondence check.
    input : kind(0 NP2.4 | 1 NP2.1 | 2 NP1) :: nshank :: nwin :: compressed(0|1) ::
-           then 7 integers per run:
+           then 8 integers per run:
              target(0 bin | 1 cbin | 2+k shank k) post_check delete_original compress overwrite
-             crash(-1 none | site-call number)  corrupt(-1 none | shank)
+             crash(-1 none | site-call number)  corrupt(-1 none | shank)  nshank(0 not given | bit mask)
    output: per run: outcome(100+status | 200+error) check_completed already_exists(0|1|2)
            already_processed  ntrace  trace codes...  state(0 absent|1 other|2 expected) of
            every path of `universe nshank`. *)
@@ -30,11 +30,13 @@ Definition enc_step (s : step) : Z :=
   | SMkdir k => 100000 + Z.of_nat k
   | STrunc p => 200000 + path_code p
   | SAppendSh _ e _ => 300000 + ecode e
+  | SAppendSub _ e _ => 300000 + ecode e
   | SAppend21 _ => 300001
   | SWriteMeta o => 400000 + owner_code o
   | SCorrupt p => 500000 + path_code p
   | SCheckBegin => 650000
   | SVerify _ => 600000
+  | SVerifyS _ _ => 600000
   | SUnlink p mok => 700000 + 2 * path_code p + enc_bool mok
   | SCompBegin o => 800000 + owner_code o
   | SCompEnd o => 900000 + owner_code o
@@ -68,14 +70,18 @@ Definition dec_target (z : Z) : target :=
   if z =? 0 then TBin else if z =? 1 then TCbin else TShank (Z.to_nat (z - 2)).
 Definition dec_bool (z : Z) : bool := negb (z =? 0).
 
-Fixpoint dec_runs (fuel : nat) (l : list Z) : list runspec :=
+(* init_params(nshank=...): 0 = not given, else bit k set = shank k requested (ascending order) *)
+Definition dec_sub (n : nat) (z : Z) : option (list nat) :=
+  if z <=? 0 then None else Some (filter (fun k => Z.testbit z (Z.of_nat k)) (seq 0 (Nat.max n 8))).
+
+Fixpoint dec_runs (n : nat) (fuel : nat) (l : list Z) : list runspec :=
   match fuel with
   | O => []
   | S f =>
       match l with
-      | t :: po :: de :: co :: ow :: cr :: cp :: rest =>
+      | t :: po :: de :: co :: ow :: cr :: cp :: sb :: rest =>
           mkRun (dec_target t) (mkO (dec_bool po) (dec_bool de) (dec_bool co)) (dec_bool ow)
-                (dec_opt cr) (dec_opt cp) :: dec_runs f rest
+                (dec_opt cr) (dec_opt cp) (dec_sub n sb) :: dec_runs n f rest
       | _ => []
       end
   end.
@@ -100,7 +106,7 @@ Fixpoint dec_calls (fuel : nat) (l : list Z) : list call :=
   end.
 
 (* input, history mode: kind :: ...; object mode: 10+kind :: n :: w :: compressed :: post :: del ::
-   comp :: calls *)
+   comp :: nshank mask :: calls *)
 Definition run (inp : list Z) : list Z :=
   match inp with
   | kd :: n :: w :: c :: rest =>
@@ -108,13 +114,13 @@ Definition run (inp : list Z) : list Z :=
       if kd <? 10 then
         flat_map (enc_out n')
           (run_hist (dec_kind kd) n' (Z.to_nat w) (init_fs (dec_bool c))
-                    (dec_runs (length rest) (rest)))
+                    (dec_runs n' (length rest) (rest)))
       else
         match rest with
-        | po :: de :: co :: rest' =>
+        | po :: de :: co :: sb :: rest' =>
             flat_map (enc_out n')
               (obj_run (dec_kind (kd - 10)) n' (Z.to_nat w)
-                       (new_obj (mkO (dec_bool po) (dec_bool de) (dec_bool co)) (dec_bool c))
+                       (new_obj_sub (mkO (dec_bool po) (dec_bool de) (dec_bool co)) (dec_bool c) (dec_sub n' sb))
                        (init_fs (dec_bool c)) (dec_calls (length rest') rest'))
         | _ => [-998]
         end
